@@ -38,6 +38,20 @@ func (k Keeper) CheckAndLiquidateUnhealthyPosition(ctx sdk.Context, mtp *types.M
 		return errors.Wrap(err, fmt.Sprintf("error handling funding fee: %s", mtp.CollateralAsset))
 	}
 
+	// the settlements above have changed the position's custody and the pool's balances and are stored even if the
+	// position turns out to be healthy and stays open: the accounted pool has to follow them
+	if k.hooks != nil {
+		ammPool, err = k.GetAmmPool(ctx, mtp.AmmPoolId)
+		if err != nil {
+			return err
+		}
+		params := k.GetParams(ctx)
+		err = k.hooks.AfterPerpetualPositionModified(ctx, ammPool, pool, mtp.GetAccountAddress(), params.EnableTakeProfitCustodyLiabilities)
+		if err != nil {
+			return err
+		}
+	}
+
 	h, err := k.GetMTPHealth(ctx, *mtp, ammPool, baseCurrency)
 	if err != nil {
 		return errors.Wrap(err, fmt.Sprintf("error updating mtp health: %s", mtp.String()))
